@@ -83,6 +83,22 @@ def tree_case(t, doc):
                 want = [OPF[t[1]](x, y) for x, y in zip(ra[1], rb[1])]
             if res != want:
                 c.fail("pointwise_operands", f"result {res} but operands give {ra[1]} {t[1]} {rb[1]}")
+    # the same combination written as spec lists ({op: [a, b, c]} folds from the left)
+    from props.c09 import tree_spell
+    import copy
+    import random as _random
+    from valida.conditions import ConditionLike
+    sp = tree_spell(_random.Random(len(repr(desc))), t)
+    if sp is not None and t[0] == "bin":
+        parsed = enc.outcome(lambda: ConditionLike.from_spec(copy.deepcopy(sp)))
+        if parsed[0] == "ok":
+            c.ask(["parse_cond", enc.enc_val(sp)], ["ok", enc.enc_cond(parsed[1])], "parse_cond")
+            rs = enc.outcome(lambda: list(parsed[1].filter(doc).result))
+            if rs != ["ok", res]:
+                c.fail("pointwise_spec_lists", f"the combination written as spec lists {sp!r:.300} gives {rs} but the operators give {res}")
+        else:
+            c.fail("pointwise_spec_lists", f"the combination written as spec lists {sp!r:.300} was rejected with {parsed[1]}")
+        c.features.add(("spec-lists",))
     c.nontrivial = len(set(res)) == 2
     c.features.add((depth_of(st), tuple(sorted(kinds)), ops_of(st), "T" in {("T" if x else "F") for x in res}))
     return c
@@ -312,7 +328,7 @@ def generate(rng, n, tier):
         if rng.random() < 0.6:
             kind = rng.choice(["value", "value", "value+key", "value+index", "key", "index", "key+index"])
             depth = rng.choice([1, 2, 2, 3] if tier == "quick" else [1, 2, 3, 4, 5])
-            t = terms.gen_tree(g, kind, depth=depth, null_p=0.15)
+            t = terms.repeat_operands(rng, terms.gen_tree(g, kind, depth=depth, null_p=0.15))
             if "index" in kind and "key" not in kind:
                 doc = g.list_(2)
             elif "key" in kind and "index" not in kind:
